@@ -105,6 +105,9 @@ impl ActorView {
         }
         c.into_iter().min()
     }
+    pub fn start_begin_seq(&self) -> Option<u64> {
+        self.hooks.iter().find(|h| matches!(h.2, HookEv::StartBegin)).map(|h| h.0)
+    }
     pub fn joined_seq(&self) -> Option<u64> {
         self.joined.as_ref().map(|j| j.0)
     }
